@@ -60,6 +60,16 @@ PROPS.update({
             "design": "6/C16", "only_hangs": True},
 })
 
+PROPS.update({
+    "C20": {"suites": {"quick": [("config", {"tier": "quick"})], "thorough": [("config", {"tier": "thorough"})]}, "design": "6/C20", "needs_memcrsd": True},
+})
+
+RULE_CONFIG = ("config: the real memcrsd binary (built from /repo's working tree) is started as a child process under {current-thread, multi-thread} x threads {1,2,8} x "
+               "eviction {none, random 64 MiB} with varying --item-size-limit, --connection-limit and --port; every configuration is driven with the same generated "
+               "single-connection programs (fresh process per program), whose response bytes are compared with the Lean model and with every other configuration; "
+               "probes: body = limit accepted and limit+1 refused with 'too large', exactly --connection-limit of limit+2 simultaneous connections served, an item with TTL 4 s "
+               "hit after 2.3 s and gone after 5.7 s of real time.")
+
 RULE_SCHED = ("sched: 2-3 real client threads, each issuing 1-2 commands on one key through BinaryHandler/MemcStore over a gate-controlled Cache: a schedule grants one "
               "trait call at a time (get_by_key, check_if_expired, set, delete, flush). For every generated (initial state absent/present/present-but-expired x programs) "
               "all interleavings of the calls are enumerated (or sampled when above the per-case cap) and run on the real code and on the Lean micro-step model under the "
@@ -92,6 +102,10 @@ def setup():
         return 1
     ok, out = core.harness_build()
     print(out[-2000:])
+    if not ok:
+        return 1
+    ok, out = core.memcrsd_build()
+    print(out[-1000:])
     return 0 if ok else 1
 
 
@@ -133,6 +147,14 @@ def run_check(prop, tier, seed, replay):
         print(f"VIOLATION property={prop} replay={p} no-failing-input-found")
         finish(prop, tier, seed, t0, lean, n_obl, n_dis, [], 1, {}, scan)
         return 1
+
+    if cfg.get("needs_memcrsd"):
+        okb, blog2 = core.memcrsd_build()
+        if not okb:
+            p = core.write_replay(prop, f"{seed}-build", {"kind": "memcrsd-build-failed", "log": blog2[-8000:]})
+            print(f"VIOLATION property={prop} replay={p} no-failing-input-found")
+            finish(prop, tier, seed, t0, lean, n_obl, n_dis, [], 1, {}, scan)
+            return 1
 
     runs = []
     hang = None
@@ -192,7 +214,7 @@ def run_check(prop, tier, seed, replay):
         stream_suite = name.startswith("codec") or name.startswith("conn") or name.startswith("grid")
         proj_suite = stream_suite or name.startswith("policy")
         for (a, b, i) in ([] if cfg.get("only_hangs") else run.divergences(cfg.get("projection") if (proj_suite and cfg.get("projection")) else None)):
-            if name.startswith("corpus") or name == "replay" or name.startswith("policy") or name.startswith("server") or name.startswith("sched") or name.startswith("stress"):
+            if name.startswith("corpus") or name == "replay" or name.startswith("policy") or name.startswith("server") or name.startswith("sched") or name.startswith("stress") or name.startswith("config"):
                 own, why = {prop}, f"witness replay differs at '{run.ops[i][:40]}'"
             elif stream_suite:
                 own, why = {prop}, f"framing differs at '{run.ops[i][:40]}'"
@@ -276,7 +298,7 @@ def finish(prop, tier, seed, t0, lean, n_obl, n_dis, stats, violations, known_hi
             "trusted_base": core.TRUSTED,
             "obligation_list": [{"name": o["name"], "axioms": o["axioms"]} for o in lean["obligations"]],
             "source_scan_hits": scan,
-            "evaluations": evals, "distinct_nontrivial": dn, "rule": RULE_STREAM if any(s.get("suite") in ("codec", "conn", "grid") for s in stats) else (RULE_POLICY if any(s.get("suite") == "policy" for s in stats) else (RULE_SERVER if any(s.get("suite") == "server" for s in stats) else (RULE_SCHED if any(s.get("suite") in ("sched", "stress") for s in stats) else RULE))),
+            "evaluations": evals, "distinct_nontrivial": dn, "rule": RULE_STREAM if any(s.get("suite") in ("codec", "conn", "grid") for s in stats) else (RULE_POLICY if any(s.get("suite") == "policy" for s in stats) else (RULE_SERVER if any(s.get("suite") == "server" for s in stats) else (RULE_SCHED if any(s.get("suite") in ("sched", "stress") for s in stats) else (RULE_CONFIG if any(s.get("suite") == "config" for s in stats) else RULE)))),
             "samples": samples or [],
             "correspondence_runs": stats,
             "lines_compared": sum(s.get("lines", 0) for s in stats),
